@@ -77,6 +77,7 @@ func sends[T any](ch chan T) int { return 0 }
 
 //@ func Association.sendPayloadData
 //@   interference
+//@   loop 1 invariant#still-established-when-woken{C08,C18} a.state == established
 //@   at call pendingQueue.push assert#only-when-established{C08,C18} a.state == established
 //@   ensures#rejected-outside-established{C08,C18} old(a.state) != established ==> result != nil && a.pendingQueue.nChunks == old(a.pendingQueue.nChunks)
 
